@@ -563,6 +563,15 @@ func main() {
 		}
 	}
 	if e.props["C04"] {
+		// the evolved message defined in an imported file (two-file packages, generated separately; no private sets)
+		{
+			v1, v2 := schema.EvolveImportedPair()
+			s1, s2 := newSchemaCase("evoimpv1", v1), newSchemaCase("evoimpv2", v2)
+			cases[s1.id], cases[s2.id] = s1, s2
+			for _, o := range impSets[len(impSets)-1:] {
+				jobs = append(jobs, job{kind: "pair", sc: s1, sc2: s2, opts: o})
+			}
+		}
 		addPair("evobase", schema.EvolveBase(), 1, -1, pairSets) // Ev.c is live in v2 (the peer still sends it), Ev.d stays deprecated
 		for i := 0; i < nPairs; i++ {
 			addPair(fmt.Sprintf("evorand%d", i), schema.Random(rng, gcfg), 0.8, 0.6, pairSets[:2])
